@@ -48,6 +48,128 @@ theorem C17_unclosed (fmt : Fmt) (c0 : Option (List ChnaEntry)) (a0 b0 : Option 
   simp only [readFile, hhead, hfuel, hw]
   rw [readChunks_chunkEnd hh' (by omega) (by omega)]
 
+/-! ### the excluded point of `C17_unclosed`: 2^32 - 1 or more data bytes
+
+`C17_unclosed` needs `(dataOf ops).length < 2^32 - 1`.  Everything from `2^32 - 1` upwards is outside it, and
+the two theorems below say what the reader model does there (for *any* history with that much data; a
+4 GiB list cannot be built in the kernel, so there is no evaluated instance, but the hypotheses are
+satisfiable; the data stays a variable throughout). -/
+
+/-- **Excluded point (walk).**  The unclosed buffer is the 12-byte RIFF header, the well-formed chunks
+`cs` = JUNK, fmt, constructor chunks, then `data`, the placeholder `0xFFFFFFFF` and the sample bytes; the
+`data` header lies at `dpos = 72 + (constructor chunks)`.
+* With exactly `2^32 - 1` data bytes the placeholder *is* the true (odd) size and only the pad byte is
+  missing: the chunk walk records the data chunk, warns "data chunk is missing padding byte", hits EOF and
+  succeeds — the verdict is whatever `finishRead` says (see `unclosed_at_limit_accepted`).
+* With `2^32` or more data bytes the placeholder chunk ends *inside* the file: no "chunk ends after the end
+  of the file"; the walk records a data chunk of `2^32 - 1` bytes and carries on at offset
+  `dpos + 8 + 2^32`, i.e. it parses **sample bytes as chunk headers** (with fuel left for all of them). -/
+theorem unclosed_walk_without_bound (fmt : Fmt) (c0 : Option (List ChnaEntry)) (a0 b0 : Option Bytes) (force : Bool)
+    (ops : List WOp) (hc0 : ChnaOK c0) (ha0 : BytesOK a0) (hb0 : BytesOK b0) :
+    let f := unclosedFile fmt c0 a0 b0 force ops
+    let cs := junkC :: fmtC fmt :: preC c0 a0 b0
+    let dpos := 12 + (encAll cs).length
+    let t : Table := (idData, 4294967295, dpos) :: walkTable 12 cs []
+    dpos = 72 + (preB c0 a0 b0).length ∧ f.length = dpos + 8 + (dataOf ops).length ∧
+    ((dataOf ops).length = 2 ^ 32 - 1 → readFile f = finishRead f idRIFF none t [.dataPad]) ∧
+    (2 ^ 32 ≤ (dataOf ops).length → ∃ fuel, (dataOf ops).length - 2 ^ 32 < fuel ∧
+      readFile f = match readChunks f none fuel (dpos + 8 + 2 ^ 32) t [] with
+        | .error e => .error e
+        | .ok (t', w) => finishRead f idRIFF none t' w) := by
+  intro f0 cs dpos t
+  have hlay : f0 = head0 fmt ++ (preB c0 a0 b0 ++ (idData ++ (ffff ++ dataOf ops))) := unclosedFile_layout ..
+  have hcsdef : cs = junkC :: fmtC fmt :: preC c0 a0 b0 := rfl
+  have hdposdef : dpos = 12 + (encAll cs).length := rfl
+  have htdef : t = (idData, 4294967295, dpos) :: walkTable 12 cs [] := rfl
+  clear_value t dpos cs f0
+  generalize f0 = f at *
+  have hds : ∀ d, (none : Option Ds64) = some d → d.table = [] := by intro d hd; cases hd
+  have hf : f = (idRIFF ++ (ffff ++ idWAVE)) ++ (encAll cs ++ (idData ++ (ffff ++ dataOf ops))) := by
+    rw [hlay, preB_eq hc0, head0, fmtChunk_eq, junkChunk_eq, hcsdef]; simp
+  have hhead : readHead f = .ok (idRIFF, none, 12) :=
+    readHead_riff (s4 := ffff) (rest := encAll cs ++ (idData ++ (ffff ++ dataOf ops))) (by rw [hf]; simp) rfl
+  have hok : ∀ c ∈ cs, c.OK none := by
+    intro c hc
+    rw [hcsdef] at hc
+    rcases List.mem_cons.1 hc with rfl | hc
+    · exact junkC_ok
+    · rcases List.mem_cons.1 hc with rfl | hc
+      · exact fmtC_ok none hds fmt
+      · exact preC_ok none hds hc0 ha0 hb0 c hc
+  have hle := length_le_encAll cs (fun c hc => (hok c hc).idLen)
+  have hfl : f.length = dpos + 8 + (dataOf ops).length := by
+    rw [hf, hdposdef]; simp [idRIFF, ffff, idWAVE, idData]; omega
+  have hdpos : dpos = 72 + (preB c0 a0 b0).length := by
+    rw [hdposdef, hcsdef]
+    simp only [encAll_cons, preB_eq hc0, List.length_append]
+    have h1 : junkC.enc.length = 36 := by decide
+    have h2 : (fmtC fmt).enc.length = 24 := by simp [fmtC, Chunk.enc, fmtPayload, idFmt, le_length]
+    omega
+  obtain ⟨fuel, hfuel⟩ : ∃ k, f.length + 1 = cs.length + (k + 2) := ⟨f.length - cs.length - 1, by omega⟩
+  have hw := walk_chunks_then none cs hok (idRIFF ++ (ffff ++ idWAVE)) f _ (fuel + 2) [] [] hf
+  have h12 : (idRIFF ++ (ffff ++ idWAVE)).length = 12 := rfl
+  rw [h12, ← hdposdef] at hw
+  have hh := readChunkHeader_hdr (f := f) (pre := idRIFF ++ (ffff ++ idWAVE) ++ encAll cs)
+    (id := idData) (s4 := ffff) (rest := dataOf ops) none (by rw [hf]; simp) rfl rfl (by decide)
+  rw [List.length_append, h12, ← hdposdef] at hh
+  have hffff : fromLE ffff = 4294967295 := by decide
+  have hh' : readChunkHeader f none dpos = .hdr idData 4294967295 := hh.trans (congrArg _ hffff)
+  have hsz : dpos + 8 + (4294967295 + 4294967295 % 2) = dpos + 8 + 2 ^ 32 := by omega
+  refine ⟨hdpos, hfl, ?_, ?_⟩
+  · intro hlen
+    simp only [readFile, hhead, hfuel, hw]
+    rw [show fuel + 2 = (fuel + 1) + 1 from rfl,
+      readChunks_dataPad hh' (by omega) ⟨by decide, rfl, by omega⟩, readChunks_eof (by omega), htdef]
+    simp only [List.nil_append]
+  · intro hlen
+    refine ⟨fuel + 1, by omega, ?_⟩
+    simp only [readFile, hhead, hfuel, hw]
+    rw [show fuel + 2 = (fuel + 1) + 1 from rfl, readChunks_continue hh' (by omega), hsz, htdef]
+    rfl
+
+/-- **Excluded point (verdict at exactly 2^32 - 1 bytes).**  If the format's block alignment divides
+`2^32 - 1` (= 3·5·17·257·65537; e.g. 24-bit mono, block alignment 3) an unclosed file with exactly `2^32 - 1`
+data bytes is **accepted**: the reader returns the format, `(2^32 - 1) / blockAlignment` frames, all the sample
+bytes and the chunks the constructor wrote, with the single warning "data chunk is missing padding byte" —
+indistinguishable from a finalised RIFF file that lost its last byte.  So the first clause of C17 is false here;
+`C17_unclosed` states the bound `< 2^32 - 1` for that reason. -/
+theorem unclosed_at_limit_accepted (fmt : Fmt) (c0 : Option (List ChnaEntry)) (a0 b0 : Option Bytes) (force : Bool)
+    (ops : List WOp) (hfmt : FmtOK fmt) (hc0 : ChnaOK c0) (ha0 : BytesOK a0) (hb0 : BytesOK b0)
+    (hdata : (dataOf ops).length = 2 ^ 32 - 1) (hframes : (2 ^ 32 - 1) % fmt.blockAlign = 0) :
+    readFile (unclosedFile fmt c0 a0 b0 force ops) =
+      .ok (⟨idRIFF, ⟨1, fmt.channels, fmt.rate, fmt.bits⟩, (2 ^ 32 - 1) / fmt.blockAlign, dataOf ops,
+            effChna c0 none, effMeta a0 none, effMeta b0 none⟩, [.dataPad]) := by
+  obtain ⟨-, -, h3, -⟩ := unclosed_walk_without_bound fmt c0 a0 b0 force ops hc0 ha0 hb0
+  rw [h3 hdata]
+  have hlay : unclosedFile fmt c0 a0 b0 force ops =
+      head0 fmt ++ (preB c0 a0 b0 ++ (idData ++ (ffff ++ dataOf ops))) := unclosedFile_layout ..
+  generalize unclosedFile fmt c0 a0 b0 force ops = f at *
+  have hlate : lateC c0.isSome (truthy a0) (truthy b0) none none none = [] := by
+    cases c0.isSome <;> cases truthy a0 <;> cases truthy b0 <;> simp [lateC, optChnaC, optMetaC]
+  have hffff : le 4 4294967295 = ffff := by decide
+  have hf : f = (idRIFF ++ (ffff ++ idWAVE)) ++
+      (encAll ([junkC] ++ bodyC fmt c0 a0 b0 4294967295 (dataOf ops) [] none none none) ++ []) := by
+    rw [hlay, preB_eq hc0, head0, fmtChunk_eq, junkChunk_eq]
+    simp [bodyC, hlate, dataC, Chunk.enc, hffff]
+  have ht : ((idData, 4294967295, 12 + (encAll (junkC :: fmtC fmt :: preC c0 a0 b0)).length) ::
+        walkTable 12 (junkC :: fmtC fmt :: preC c0 a0 b0) [] : Table) =
+      walkTable (idRIFF ++ (ffff ++ idWAVE)).length
+        ([junkC] ++ bodyC fmt c0 a0 b0 4294967295 (dataOf ops) [] none none none) [] := by
+    have : [junkC] ++ bodyC fmt c0 a0 b0 4294967295 (dataOf ops) [] none none none =
+        (junkC :: fmtC fmt :: preC c0 a0 b0) ++ [dataC 4294967295 (dataOf ops) []] := by
+      simp [bodyC, hlate]
+    rw [this, walkTable_snoc]
+    simp only [dataC, hdata]
+    rfl
+  rw [ht, finishRead_written (w := [Warn.dataPad]) hfmt hc0 (by trivial) hf
+    (by intro x hx; rw [List.mem_singleton.1 hx]; rfl) (by intro d hd; cases hd) (by rw [hdata]; exact hframes), hdata]
+
+/-- the arithmetic side condition of `unclosed_at_limit_accepted` holds for 24-bit mono (block alignment 3) and
+24-bit 5-channel (15) audio.  (The length hypotheses are plainly satisfiable — a history with one `write` of that
+many bytes — but no such list is ever constructed or evaluated here: the data stays a variable.) -/
+example : (2 ^ 32 - 1) % (⟨1, 48000, 24⟩ : Fmt).blockAlign = 0 ∧ (2 ^ 32 - 1) % (⟨5, 48000, 24⟩ : Fmt).blockAlign = 0 := by
+  decide
+
 /-! ### truncated finalised files -/
 
 /-- The finalised file as the reader sees it: a header part `pre` (12 bytes for RIFF, 48 for BW64 including
@@ -135,7 +257,7 @@ theorem closedFile_written (fmt : Fmt) (c0 : Option (List ChnaEntry)) (a0 b0 : O
         by simp [effSize, hdrSize, dataC], by simp [dataC, pad_length]⟩
     have hpl12 : (idRIFF ++ (le 4 R ++ idWAVE)).length = 12 := by simp [idRIFF, idWAVE, le_length]
     refine ⟨_, [junkC], none, idRIFF, (dataOf ops).length, hf,
-      by intro x hx; rw [List.mem_singleton.1 hx]; rfl, ?_, (by intro d hd; cases hd), by rw [hpl12]; omega, ?_, ?_⟩
+      by intro x hx; rw [List.mem_singleton.1 hx]; rfl, ?_, (by intro d hd; cases hd), by have := hpl12; omega, ?_, ?_⟩
     · intro c hc
       rcases List.mem_append.1 hc with h | h
       · rw [List.mem_singleton.1 h]; exact junkC_ok
